@@ -343,8 +343,37 @@ fn write_replay<E: Engine>(ctx: &Ctx, f: &Failure<E::Case>) -> PathBuf {
     path
 }
 
+/// cases finished so far (all shards); watched by the hang watchdog
+static PROGRESS: std::sync::atomic::AtomicU64 = std::sync::atomic::AtomicU64::new(0);
+
+/// A pool operation that never returns while running inline cannot be interrupted;
+/// if no case finishes for `VERIF_HANG_S` seconds (default 120) the process reports
+/// the run as inconclusive (exit 2), never as a violation.
+fn start_hang_watchdog(prop: String) {
+    let limit: u64 = std::env::var("VERIF_HANG_S").ok().and_then(|s| s.parse().ok()).unwrap_or(120);
+    std::thread::spawn(move || {
+        let mut last = PROGRESS.load(Ordering::Relaxed);
+        let mut since = Instant::now();
+        loop {
+            std::thread::sleep(std::time::Duration::from_secs(2));
+            let now = PROGRESS.load(Ordering::Relaxed);
+            if now != last {
+                last = now;
+                since = Instant::now();
+            } else if since.elapsed().as_secs() >= limit {
+                println!(
+                    "INCONCLUSIVE: no case of {} finished for {} s (an operation hangs); no evidence written",
+                    prop, limit
+                );
+                std::process::exit(2);
+            }
+        }
+    });
+}
+
 fn check<E: Engine>(prop: &str, tier: Tier, seed: u64) -> i32 {
     let t0 = Instant::now();
+    start_hang_watchdog(prop.to_string());
     let known_entries = load_known(prop);
     let ctx = Ctx {
         prop: prop.to_string(),
@@ -591,6 +620,7 @@ fn run_shard<E: Engine>(
             return Ok(());
         }
         let rep = E::run(ctx, &case);
+        PROGRESS.fetch_add(1, Ordering::Relaxed);
         if !failed.get() {
             let mut st = stats.borrow_mut();
             st.cases += 1;
